@@ -4,6 +4,7 @@
                          the text is the concatenation of the pieces of doc_pt t
      srcs_doc_pt       ok_pt n t = true -> srcs (doc_pt t) = toks_pt (canon_pt t)
                          the printed terminals are, in order, exactly the terminals of the canonical tree
+     canon_key_list_ok key_list_ok l = true -> canon_key_list l = l   (key lists keep their order)
      seps_doc_pt       every separator piece is white space
      nc_pt_canon       nc_pt (canon_pt t) = nc_pt t
      canon_pt_idem     canon_pt (canon_pt t) = canon_pt t *)
@@ -250,9 +251,6 @@ Proof.
   destruct cs as [|c cs']; cbn [zip_commas map snd]; rewrite IH; reflexivity.
 Qed.
 
-Lemma items_key_items l : items_of_type T_DIGITS l ++ items_of_type T_STRING l = map p_text (key_items l).
-Proof. unfold items_of_type, key_items. rewrite map_app. reflexivity. Qed.
-
 Lemma render_short_rest r : render (doc_short_rest r) = fold_right (fun v acc => ", " +++ v +++ acc) EmptyString (map p_text (map snd r)).
 Proof.
   induction r as [|[c i] r IH]; [reflexivity|]. cbn [doc_short_rest map snd fold_right].
@@ -289,7 +287,7 @@ Qed.
 
 Lemma key_text_render l : match_key_text (MKList l) = render (doc_key_list l).
 Proof.
-  cbn [match_key_text]. rewrite items_key_items. unfold doc_key_list, format_string_list. rewrite map_length.
+  cbn [match_key_text]. unfold doc_key_list, format_string_list. rewrite map_length.
   destruct (key_items l) as [|f its] eqn:E; [reflexivity|].
   assert (Hr : map snd (key_rest l) = its).
   { unfold key_rest. rewrite map_snd_zip_commas, E. reflexivity. }
@@ -472,11 +470,25 @@ Proof.
     rewrite 2!render_app. apply gend_app. apply gend_app. apply IH.
 Qed.
 
+(* the final TrimRight(.., "\n") does nothing: the text ends with "}" *)
+Lemma trim_right_nl_gend s : gend s = true -> trim_right_nl s = s.
+Proof.
+  induction s as [|c r IH]; [discriminate|]. destruct r as [|c2 r2].
+  - cbn [gend trim_right_nl]. intro H. unfold graphic in H. apply andb_true_iff in H. destruct H as [H1 _]. apply Nat.leb_le in H1.
+    unfold is_nl. replace (Nat.eqb (nat_of_ascii c) 10) with false by (symmetry; apply Nat.eqb_neq; lia). reflexivity.
+  - intro H. change (gend (String c (String c2 r2))) with (gend (String c2 r2)) in H.
+    change (trim_right_nl (String c (String c2 r2)))
+      with (match trim_right_nl (String c2 r2) with
+            | EmptyString => if is_nl c then EmptyString else String c EmptyString
+            | r' => String c r'
+            end).
+    rewrite (IH H). reflexivity.
+Qed.
+
 Theorem nc_pt_render t : clean_toks (toks_pt t) -> nc_pt t = render (doc_pt t).
 Proof.
   intro H. unfold nc_pt. rewrite (nc_packet_render t H). unfold doc_pt. destruct (pk_defs t) as [|d r]; [reflexivity|].
-  apply trim_space_clean. unfold clean. apply andb_true_iff. split; [|apply gend_doc_definitions].
-  cbn [doc_definitions]. apply gstart_doc_definition.
+  apply trim_right_nl_gend. apply gend_doc_definitions.
 Qed.
 
 (* ------------------------------------------------------------------ the printed terminals *)
@@ -542,9 +554,8 @@ Qed.
 
 Lemma key_items_nonempty l : key_list_ok l = true -> key_items l <> [].
 Proof.
-  unfold key_list_ok, key_items, list_items, item_ok. intro H. apply andb_true_iff in H. destruct H as [H _].
-  cbn [filter]. destruct (Nat.eqb (p_type (li_first l)) T_DIGITS); [discriminate|].
-  cbn [orb] in H. rewrite H. intro E. apply app_eq_nil in E. destruct E as [_ E]. discriminate.
+  unfold key_list_ok, key_items, list_items. intro H. apply andb_true_iff in H. destruct H as [H _].
+  cbn [filter]. change (is_item (li_first l)) with (item_ok (li_first l)). rewrite H. discriminate.
 Qed.
 
 Lemma srcs_doc_key_list l : key_list_ok l = true -> srcs (doc_key_list l) = toks_key_list (canon_key_list l).
@@ -577,9 +588,9 @@ Proof.
 Qed.
 
 Lemma srcs_doc_match_field_decl n d :
-  forallb (ok_match_pair n) (mf_pairs d) = true -> srcs (doc_match_field_decl d) = toks_match_field_decl (canon_match_field_decl d).
+  ok_match_decl n d = true -> srcs (doc_match_field_decl d) = toks_match_field_decl (canon_match_field_decl d).
 Proof.
-  intro H. unfold doc_match_field_decl, toks_match_field_decl. rewrite !srcs_app.
+  unfold ok_match_decl. intro H. apply andb_true_iff in H. destruct H as [_ H]. unfold doc_match_field_decl, toks_match_field_decl. rewrite !srcs_app.
   rewrite (srcs_doc_match_pairs _ (ok_pairs_keys n _ H)). reflexivity.
 Qed.
 
@@ -587,7 +598,8 @@ Lemma srcs_doc_field_def n f : ok_field_def n f = true -> srcs (doc_field_def f)
 Proof.
   induction f as [sp rep sp' name open fields close comma IH|sp rep d|sp rep ft fn doc comma|sp d|sp d|sp d comma]
     using field_def_ind'; intro H; cbn [ok_field_def] in H; apply andb_true_iff in H; destruct H as [_ H].
-  - assert (E : srcs (doc_field_defs fields) = flat_map toks_field_def (map canon_field_def fields)).
+  - apply andb_true_iff in H. destruct H as [_ H].
+    assert (E : srcs (doc_field_defs fields) = flat_map toks_field_def (map canon_field_def fields)).
     { induction fields as [|x r IHr]; [reflexivity|]. cbn [forallb] in H. apply andb_true_iff in H. destruct H as [Hx Hr].
       inversion IH as [|y l Hy Hl]; subst. cbn [doc_field_defs map flat_map]. rewrite srcs_app, srcs_indent4ln, (Hy Hx), (IHr Hl Hr). reflexivity. }
     rewrite doc_field_def_iner. cbn [canon_field_def]. rewrite toks_field_def_iner. rewrite !srcs_app, srcs_doc_kw, E.
@@ -600,10 +612,11 @@ Proof.
 Qed.
 
 Lemma srcs_doc_fields_with_attr n fs :
-  forallb (fun f => ok_field_def n (fw_def f)) fs = true ->
+  forallb (ok_field_with_attr n) fs = true ->
   srcs (doc_fields_with_attr fs) = flat_map toks_field_with_attr (map canon_field_with_attr fs).
 Proof.
   induction fs as [|f r IH]; cbn [forallb]; intro H; [reflexivity|]. apply andb_true_iff in H. destruct H as [Hf Hr].
+  unfold ok_field_with_attr in Hf. apply andb_true_iff in Hf. destruct Hf as [_ Hf].
   cbn [doc_fields_with_attr map flat_map]. rewrite srcs_app, srcs_indent4ln, (IH Hr). f_equal.
   unfold doc_field_with_attr, toks_field_with_attr. cbn [canon_field_with_attr fw_attrs fw_def].
   rewrite srcs_app, srcs_doc_field_attributes, (srcs_doc_field_def n _ Hf). reflexivity.
@@ -772,48 +785,42 @@ Qed.
 Lemma filter_filter_same {A : Type} (f : A -> bool) l : filter f (filter f l) = filter f l.
 Proof. induction l as [|x r IH]; [reflexivity|]. cbn [filter]. destruct (f x) eqn:E; cbn [filter]; [rewrite E, IH|rewrite IH]; reflexivity. Qed.
 
-Lemma filter_filter_disjoint {A : Type} (f g : A -> bool) l : (forall x, f x = true -> g x = false) -> filter g (filter f l) = [].
-Proof.
-  intro H. induction l as [|x r IH]; [reflexivity|]. cbn [filter]. destruct (f x) eqn:E; [|exact IH].
-  cbn [filter]. rewrite (H x E). exact IH.
-Qed.
-
-Definition is_digits (k : ptok) : bool := Nat.eqb (p_type k) T_DIGITS.
-Definition is_string (k : ptok) : bool := Nat.eqb (p_type k) T_STRING.
-
-Lemma digits_not_string k : is_digits k = true -> is_string k = false.
-Proof. unfold is_digits, is_string. intro H. apply Nat.eqb_eq in H. rewrite H. reflexivity. Qed.
-Lemma string_not_digits k : is_string k = true -> is_digits k = false.
-Proof. unfold is_digits, is_string. intro H. apply Nat.eqb_eq in H. rewrite H. reflexivity. Qed.
-
 Lemma list_items_canon l f its : key_items l = f :: its -> list_items (canon_key_list l) = key_items l.
 Proof.
   intro E. unfold canon_key_list. rewrite E. unfold list_items. cbn [li_first li_rest]. unfold key_rest.
   rewrite map_snd_zip_commas, E. reflexivity.
 Qed.
 
-Lemma key_items_fix l : filter is_digits (key_items l) ++ filter is_string (key_items l) = key_items l.
-Proof.
-  unfold key_items.
-  change (fun k => Nat.eqb (p_type k) T_DIGITS) with is_digits. change (fun k => Nat.eqb (p_type k) T_STRING) with is_string.
-  rewrite !filter_app, filter_filter_same, filter_filter_same.
-  rewrite (filter_filter_disjoint is_string is_digits _ string_not_digits).
-  rewrite (filter_filter_disjoint is_digits is_string _ digits_not_string).
-  rewrite app_nil_r. reflexivity.
-Qed.
-
 Lemma key_items_canon l : key_items (canon_key_list l) = key_items l.
 Proof.
   destruct (key_items l) as [|f its] eqn:E; [unfold canon_key_list; rewrite E; exact E|].
-  unfold key_items at 1. rewrite (list_items_canon l f its E).
-  change (fun k => Nat.eqb (p_type k) T_DIGITS) with is_digits. change (fun k => Nat.eqb (p_type k) T_STRING) with is_string.
-  rewrite key_items_fix. exact E.
+  unfold key_items at 1. rewrite (list_items_canon l f its E). unfold key_items. rewrite filter_filter_same. exact E.
+Qed.
+
+(* on the trees of the parser the canonical key list is the key list itself *)
+Lemma filter_all {A : Type} (f : A -> bool) l : forallb f l = true -> filter f l = l.
+Proof.
+  induction l as [|x r IH]; cbn [forallb filter]; intro H; [reflexivity|]. apply andb_true_iff in H. destruct H as [Hx Hr].
+  rewrite Hx, (IH Hr). reflexivity.
+Qed.
+
+Lemma zip_commas_combine (r : list (ptok * ptok)) : zip_commas (map fst r) (map snd r) = r.
+Proof. induction r as [|[c i] r IH]; [reflexivity|]. cbn [map fst snd zip_commas]. rewrite IH. reflexivity. Qed.
+
+Lemma canon_key_list_ok l : key_list_ok l = true -> canon_key_list l = l.
+Proof.
+  unfold key_list_ok. intro H. apply andb_true_iff in H. destruct H as [Hf Hr].
+  assert (E : key_items l = list_items l).
+  { unfold key_items. apply filter_all. unfold list_items. cbn [forallb]. change (is_item (li_first l)) with (item_ok (li_first l)).
+    rewrite Hf. cbn [andb]. rewrite forallb_forall. intros x Hx. apply in_map_iff in Hx. destruct Hx as [p [Ep Hp]]. subst x.
+    rewrite forallb_forall in Hr. exact (Hr p Hp). }
+  unfold canon_key_list, key_rest. rewrite E. unfold list_items. cbn [tl]. rewrite zip_commas_combine. destruct l; reflexivity.
 Qed.
 
 Lemma match_key_text_canon k : match_key_text (canon_match_key k) = match_key_text k.
 Proof.
   destruct k as [t|t|l]; try reflexivity. cbn [canon_match_key match_key_text].
-  rewrite !items_key_items, key_items_canon. reflexivity.
+  rewrite key_items_canon. reflexivity.
 Qed.
 
 Lemma nc_match_pairs_canon ps : nc_match_pairs (map canon_match_pair ps) = nc_match_pairs ps.
